@@ -63,3 +63,29 @@ Definition check_prog (c : prog unit * list Z * obs * obs) : bool :=
   let '(p, data, dobs, sobs) := c in
   let '(md, ms) := model_prog p data in
   obs_eqb md dobs && obs_eqb ms sobs.
+
+(* ---- the stream level (Model/SerDesStream.v) against the real parse_stream ---- *)
+From VC2 Require Import Model.SerDesStream.
+
+(* streams without picture / fragment units: those bodies are parameters of the model *)
+Definition stream_body : Z -> Z -> prog unit := vc2_body (fun _ => Ret tt) (fun _ => Ret tt).
+
+Definition model_stream (data : list Z) : obs * obs :=
+  let fuel := S (length data) in
+  match stream_des stream_body fuel fuel (bits_of_bytes data) with
+  | Err e => (ObsErr (err_code e), ObsErr (-1))
+  | Ok s =>
+      (obs_des (Ok (tt, s)),
+       if vcode s =? 0
+       then let '(ty, f) := root_tf s in
+            match stream_ser [] stream_body fuel fuel ty f with
+            | Ok s' => obs_ser (Ok (tt, s'))
+            | Err e => ObsErr (err_code e)
+            end
+       else ObsErr (-1))
+  end.
+
+Definition check_stream (c : list Z * obs * obs) : bool :=
+  let '(data, dobs, sobs) := c in
+  let '(md, ms) := model_stream data in
+  obs_eqb md dobs && obs_eqb ms sobs.
